@@ -74,7 +74,7 @@ func TestVerifC13(t *testing.T) {
 		if si%4 == 0 {
 			norm = append(norm, strings.ToLower)
 		}
-		th := []float64{0.8, 0.5, 0.9}[si%3]
+		th := []float64{0.8, 0.5, 0.9, 1.0, 0.8, 0.3, 1.0}[si%7]
 		c := New(th, norm...)
 		var values []string
 		nv := 1 + rr.intn(4)
